@@ -72,6 +72,18 @@ def run_property(prop, tier, seed, replay_file=None):
         if len(behs) > cap:
             rnd = random.Random(seed)
             behs = rnd.sample(behs, cap)
+        nsh = opts.get("shuffle", 0)
+        if nsh:
+            # the same programs under random schedules over the stops the real code makes
+            rnd = random.Random(seed + 7)
+            full = [b for b in behs if not b.get("prefix")]
+            if not full:
+                # transition-coverage prefixes: the complete programs are the ones with the most calls
+                ncalls = lambda b: sum(1 for x in b["steps"] if x.get("ev") == "call")
+                top = max(ncalls(b) for b in behs)
+                full = [b for b in behs if ncalls(b) == top]
+            pick = rnd.sample(full, min(len(full), opts.get("shuffle_programs", 150)))
+            behs = behs + [dict(steps=b["steps"], shuffle_seed=rnd.getrandbits(48) + 1) for b in pick for _ in range(nsh)]
         if r["violated"] and r["cex"]:
             # the model itself violates the property: the counterexample is put to the real code
             behs = [dict(steps=r["cex"], prefix=True, cex=True)] + behs
@@ -93,7 +105,7 @@ def run_property(prop, tier, seed, replay_file=None):
         per_instance.append(dict(instance=name, states=r["distinct"], transitions=r["states"], depth=r["depth"], emitted=len(r["behaviours"]),
                                  replayed=len(behs), validated=consumed, steering_misses=st["misses"], tlc_wall_s=round(r["wall"], 1),
                                  model_violates=r["violated"], timed_out=r["timed_out"],
-                                 other_property_violations=len([v for v in viols if v["p"] != prop])))
+                                 other_property_violations=len([v for v in viols if v["p"] != prop]), shuffled=sum(1 for b in behs if "shuffle_seed" in b)))
         if behs:
             samples.append(dict(instance=name, behaviour=sample_of(behs[min(len(behs) - 1, 1)])))
         for v in new:
